@@ -12,7 +12,7 @@
 #include "cholesky_solve.h"   // from $(REPO)/src/fitter
 static vf::Harness* H;
 
-struct Config { int W, nalpha, variant; int spurious; };
+struct Config { int W, nalpha, variant; int spurious; int goto_env; };   // goto_env: the worker count comes from GOTO_NUM_THREADS (which takes precedence) while OMP_NUM_THREADS says something else
 static const char* VN[] = {"improves-at-alpha=1", "improves-in-the-middle", "never-improves(bind-and-retry)"};
 
 // ---- problem data: A = I so that the residual is |z-b|^2 - |b|^2 and the first improving step is controlled through b
@@ -65,7 +65,7 @@ static Exec execute(const Config& cf, const std::vector<int>& prefix) {
   if (pid == 0) {
     close(fd[0]);
     if (!freopen(errpath.c_str(), "w", stderr)) _exit(8);
-    setenv("OMP_NUM_THREADS", std::to_string(cf.W).c_str(), 1); unsetenv("GOTO_NUM_THREADS"); setenv("MS_SPURIOUS", std::to_string(cf.spurious).c_str(), 1);
+    if (cf.goto_env) { setenv("GOTO_NUM_THREADS", std::to_string(cf.W).c_str(), 1); setenv("OMP_NUM_THREADS", std::to_string(cf.W + 1).c_str(), 1); } else { setenv("OMP_NUM_THREADS", std::to_string(cf.W).c_str(), 1); unsetenv("GOTO_NUM_THREADS"); } setenv("MS_SPURIOUS", std::to_string(cf.spurious).c_str(), 1);
     Problem P; build(P, cf); g_P = &P;
     ms_begin(prefix.data(), prefix.size(), fd[1], state_cb, 20000);
     int feasible = walk_descents(P.A, P.b, P.x, P.xF, P.F.data(), &P.nF, P.H1.data(), &P.nH1, &P.residual, &P.residual_calcs, 0, &P.c);
@@ -101,10 +101,10 @@ static std::string sched_str(const Exec& e) {   // human-readable schedule: whic
 static std::string choices_str(const Exec& e) { std::vector<int> c; for (auto& r : e.recs) c.push_back(r.chosen); return vf::vecstr(c); }
 
 static void explore(const Config& cf, uint64_t max_exec) {
-  std::string ck = vf::fmt("W=%d:n_alpha=%d:%s%s", cf.W, cf.nalpha, VN[cf.variant], cf.spurious ? ":1-spurious-wakeup" : "");
+  std::string ck = vf::fmt("W=%d:n_alpha=%d:%s%s", cf.W, cf.nalpha, VN[cf.variant], cf.spurious ? ":1-spurious-wakeup" : "") + (cf.goto_env ? ":via-GOTO_NUM_THREADS" : "");
   H->hint(ck);
   // sequential reference: one worker, non-preemptive default schedule
-  Config ref = cf; ref.W = 1; ref.spurious = 0;
+  Config ref = cf; ref.W = 1; ref.spurious = 0; ref.goto_env = 0;
   Exec R = execute(ref, {});
   if (R.r.outcome != MS_COMPLETE || R.out.empty()) { H->violation("reference-run-failed", ck + " outcome=" + std::to_string(R.r.outcome) + " " + R.err); return; }
   { int feasible; memcpy(&feasible, R.out.data(), sizeof feasible); H->cls(std::string("reference|") + VN[cf.variant] + (feasible ? "|feasible" : "|infeasible"));
@@ -146,7 +146,7 @@ int main(int argc, char** argv) {
   vf::Harness h("C12", argc, argv);
   H = &h;
   h.meta("level", "model_checking");
-  h.meta("rule", "stateless exploration with state matching of the real walk_descents + evaluate_descent under a cooperative scheduler (every lock, unlock, cond_wait, broadcast, create, join, exit and thread start is a scheduling point; choice = which enabled thread performs its pending operation); canonical state = per-thread (status, pending operation, call site, join target, joined flag), mutex owner, condition wait set, plus the protocol data read from the descent_trial structures (state, alpha, residual, nH1, H1, x_c) and the coordinator's x / nH1; one forked execution per transition of the reachable state graph; configurations: workers x trial steps x {first improving step at alpha=1, in the middle, never}, plus configurations in which one spurious return from cond_wait is injected at every possible point; oracle on every complete execution: no deadlock / livelock, all threads joined once, outputs (feasible, x[F], H1, nH1, residual) bit-identical to the one-worker non-preemptive reference, ASan clean");
+  h.meta("rule", "stateless exploration with state matching of the real walk_descents + evaluate_descent under a cooperative scheduler (every lock, unlock, cond_wait, broadcast, create, join, exit and thread start is a scheduling point; choice = which enabled thread performs its pending operation); canonical state = per-thread (status, pending operation, call site, join target, joined flag), mutex owner, condition wait set, plus the protocol data read from the descent_trial structures (state, alpha, residual, nH1, H1, x_c) and the coordinator's x / nH1; one forked execution per transition of the reachable state graph; configurations: workers x trial steps x {first improving step at alpha=1, in the middle, never}, plus configurations in which one spurious return from cond_wait is injected at every possible point, and configurations whose worker count comes from GOTO_NUM_THREADS; thorough adds four workers; oracle on every complete execution: no deadlock / livelock, all threads joined once, outputs (feasible, x[F], H1, nH1, residual) bit-identical to the one-worker non-preemptive reference, ASan clean");
   h.meta("assumption", "sequentially consistent interleavings at synchronisation operations; data-race freedom between them is checked separately by the free-running TSan pass (C12tsan spaces)");
   h.meta("assumption", "cholmod_common is shared by the workers inside an uninstrumented library: races inside CHOLMOD are outside this check");
   h.meta("extra_binaries", "C12tsan");
@@ -156,11 +156,13 @@ int main(int argc, char** argv) {
   // configurations (W, n_alpha): W both smaller and larger than n_alpha, 1..3 blocks
   std::vector<Config> cfs;
   std::vector<std::pair<int, int>> wn = {{1, 2}, {1, 3}, {2, 2}, {2, 3}, {2, 4}, {3, 2}, {3, 3}};
-  if (h.thorough) { wn.push_back({2, 5}); wn.push_back({2, 6}); wn.push_back({3, 4}); wn.push_back({3, 6}); wn.push_back({3, 7}); }
-  for (auto& p : wn) for (int v = 0; v < 3; v++) cfs.push_back({p.first, p.second, v, 0});
+  if (h.thorough) { wn.push_back({2, 5}); wn.push_back({2, 6}); wn.push_back({3, 4}); wn.push_back({3, 6}); wn.push_back({3, 7}); wn.push_back({4, 2}); wn.push_back({4, 4}); wn.push_back({4, 5}); }
+  if (h.thorough) for (auto& p : wn) if (p.first == 4) for (int v = (p.second == 5 ? 1 : 0); v < 3; v++) cfs.push_back({p.first, p.second, v, 0, 0});   // the largest graphs first (they bound the wall time)
+  for (auto& p : wn) if (p.first != 4) for (int v = 0; v < 3; v++) cfs.push_back({p.first, p.second, v, 0, 0});
+  cfs.push_back({2, 3, 1, 0, 1}); if (h.thorough) cfs.push_back({3, 2, 2, 0, 1});   // worker count taken from GOTO_NUM_THREADS
   // POSIX allows cond_wait to return spuriously: the same protocol with one such return injected at every possible place
-  { std::vector<std::pair<int, int>> sp = {{1, 2}, {2, 2}}; if (h.thorough) { sp.push_back({1, 3}); sp.push_back({2, 3}); sp.push_back({2, 4}); sp.push_back({3, 2}); } for (auto& p : sp) for (int v = 0; v < 3; v += 2) cfs.push_back({p.first, p.second, v, 1}); }
-  if (const char* pr = getenv("C12_PROBE")) { Config c{2, 2, 0, 0}; sscanf(pr, "%d,%d,%d,%d", &c.W, &c.nalpha, &c.variant, &c.spurious); cfs.assign(1, c); }   // experiments: one configuration
+  { std::vector<std::pair<int, int>> sp = {{1, 2}, {2, 2}}; if (h.thorough) { sp.push_back({1, 3}); sp.push_back({2, 3}); sp.push_back({2, 4}); sp.push_back({3, 2}); } for (auto& p : sp) for (int v = 0; v < 3; v += 2) cfs.push_back({p.first, p.second, v, 1, 0}); }
+  if (const char* pr = getenv("C12_PROBE")) { Config c{2, 2, 0, 0, 0}; sscanf(pr, "%d,%d,%d,%d", &c.W, &c.nalpha, &c.variant, &c.spurious); cfs.assign(1, c); }   // experiments: one configuration
   h.add_space("configs", cfs.size(), [cfs](uint64_t i) { explore(cfs[i], 400000); });
   return h.main();
 }
